@@ -59,7 +59,9 @@ TEXTS["C14"] = {
 }
 TEXTS["C13"] = {
     "text": "Proved on the model of SimpleLedger/SimpleAccount/AccountCache for all ledger states (any dirty set, origin memo, cache and database content): read-your-write for journaled writes, "
-            "deletes and un-journaled adds, independence of other keys (C13_read_after_set, C13_read_after_add, C13_set_other_key_dirty). The end-to-end refinement to a plain map across flush / "
+            "deletes and un-journaled adds, independence of other keys (C13_read_after_set, C13_read_after_add, C13_set_other_key_dirty); across the end of a block: after FlushDirtyData the last value written to a key of a modified "
+            "account is read back through the account cache (C13_read_after_flush), and after Commit + reopen (no caches) the same bytes are read from the database (C13_read_after_commit_reopen; "
+            "Proofs/LedgerReads.lean). The end-to-end refinement to a plain map across flush / "
             "commit / eviction / reopen / rollback is decided by model correspondence (every getter, QueryByPrefix and the state roots bit for bit) plus a plain-map reference monitor on the real ledger. "
             "Two defects found here were repaired by fix: commits (QueryByPrefix overlap; AddState not loading the committed value); known findings: empty values are not persisted, Query ignores the cache before commit.",
     "note": TB + " LevelDB, golang-lru (eviction = explicit op) are modelled; Keccak-256 is a parameter supplied by a table checked by the harness.",
